@@ -201,20 +201,20 @@ PROPS = {
                 mc={"quick": ["roundtrip_pay", "contract_pay"], "thorough": ["roundtrip_pay", "contract_pay"]},
                 steps=[{"cmd": "c01", "judge": "J_C01"}]),
     "C02": dict(T("every ok event of the real decoder front-ends (push, decode_streaming, SmlReader over iterator / io::Read) on ADV / INFRAME / PADX / NEARSTART / HIST token trees, corpus dumps and "
-                  "seeded mutations; a record is (payload, tail of the consumed prefix); distinct = distinct (prefix tail, payload) pairs; every record is an accepted frame; front-ends include small fixed capacities (1/4/6/9) and decoders built with from_buf on a non-empty buffer"),
+                  "seeded mutations; a record is (payload, tail of the consumed prefix); distinct = distinct (prefix tail, payload) pairs; every record is an accepted frame; front-ends include small fixed capacities (1/4/6/9) and decoders built with from_buf on a non-empty buffer; CAPTAIL: prefix + lone 0x1b run / literal escape / zeros + a tail of 8..12 bytes, followed by a small frame, through every fixed capacity 0..|p|+1"),
                 mc={"quick": ["sound_adv", "contract_adv"], "thorough": ["sound_adv", "contract_adv", "total_hist", "sim_hist"]},
                 steps=[{"cmd": "c02", "judge": "J_C02"}]),
     "C05": dict(T("push/finalize/reset histories (HIST), INFRAME, NOISE, corpus, mutations on Decoder<Vec> and Decoder<ArrayBuf<N>> N in {0,1,2,3,8}, each followed by finalize + empty frame + finalize; "
-                  "long runs (2^8, 2^16 +-1, 2^17+1) through all front-ends; overflow-checked build; distinct = distinct (capacity, event list)"),
+                  "long runs (2^8, 2^16 +-1, 2^17+1) through all front-ends; overflow-checked build; distinct = distinct (capacity, event list); ALLOCFAIL: encode::<Vec<u8>>, Decoder<Vec<u8>>::push_byte and decode_streaming::<Vec<u8>> in a worker process whose allocator refuses every request above 1..512 bytes (outcome: correct result or OutOfMemory; a dead worker is an abort)"),
                 mc={"quick": ["total_hist"], "thorough": ["total_hist", "boundary_hist", "sim_hist"]},
                 steps=[{"cmd": "c05", "judge": "J_C05", "profile": "checked", "watchdog": {"quick": 600, "thorough": 5400}},
                        {"cmd": "c05", "judge": "J_Conf", "profile": "checked", "reuse": True, "drift": True}]),
-    "C07": dict(T("same payload families as C01; both encoders compared with Frame.Canonical (the buffer encoder also fed through iterators with an inexact size_hint); ArrayBuf capacities around the frame length; 300 / 70000 extra next() calls after the iterator ended"),
+    "C07": dict(T("same payload families as C01; both encoders compared with Frame.Canonical (the buffer encoder also fed through iterators with an inexact size_hint); both encoders also fed by a non-fused iterator that yields more bytes after its first None; ArrayBuf capacities around the frame length; 300 / 70000 extra next() calls after the iterator ended"),
                 mc={"quick": ["encoders"], "thorough": ["encoders"]},
                 proofs=["pad_counter", "pad_counter_tlaps"],
                 steps=[{"cmd": "c07", "judge": "J_C07"}]),
     "C08": dict(T("14 idle histories (new, after ok / invalid message / invalid escape - also with error bytes ending in 0x1b -, after reset / finalize - also called while noise or a partial start sequence is pending) x all noise strings over {1b,01,55} up to length 7/9 + random noise over all byte values (incl. partial start sequences) x 5 payloads; seven histories ending in an out-of-memory error of ArrayBuf<8>; every cut point of 265+ frames "
-                  "followed by 3 frames; the antecedent (no start sequence in noise / no escape in progress) is evaluated by the monitor"),
+                  "followed by 3 frames; noise runs of 2^16-1 / 2^16 / 70001 bytes (thorough: to 2^18+1) on a fresh decoder and behind a frame; the antecedent (no start sequence in noise / no escape in progress) is evaluated by the monitor"),
                 mc={"quick": ["resync_noise", "resync_calls", "contract_noise"], "thorough": ["resync_noise", "resync_calls", "contract_noise"]},
                 proofs=["matcher"],
                 steps=[{"cmd": "c08", "judge": "J_C08"},
@@ -235,7 +235,7 @@ PROPS = {
                 proofs=["zero_cache"],
                 steps=[{"cmd": "c16", "judge": "J_C16"}]),
     "C03": dict(P("valid files from the harness generator (all value types, integer widths 1-8, optional masks, multi-byte / non-minimal TLFs, list lengths across 15/16, both time encodings, "
-                  "1-byte checksum fields) with the generator's intended content, plus the corpus payloads and their message-boundary truncations; judged against SmlGrammar.ParseFile"),
+                  "1-byte checksum fields) with the generator's intended content, plus the corpus payloads and their message-boundary truncations, and valid files with one octet string of 2^12 .. 2^17 (thorough: 200000) bytes; judged against SmlGrammar.ParseFile"),
                 mc={"quick": ["grammar"], "thorough": ["grammar"]},
                 steps=[{"cmd": "c03", "judge": "J_C03", "cfg": "JudgeP.cfg", "tlcgen": "grammar_files"}]),
     "C04": dict(P("218 corpus payloads + generated files x (all truncations, extensions, single-byte substitutions - exhaustive at TLF bytes and for the smallest files -, element deletion / duplication / "
@@ -244,13 +244,13 @@ PROPS = {
                 mc={"quick": ["grammar"], "thorough": ["grammar", "tlf_exact"]},
                 steps=[{"cmd": "c04", "judge": "J_C04", "cfg": "JudgeP.cfg"}]),
     "C06": dict(P("declared-length bombs (2^k-1, 2^k for k in 4..32, and beyond 32 bits) at every TLF of every base file, structural edits and a sample of the other corruptions; each case run in a worker "
-                  "process under a watchdog with a counting global allocator; record = (|x|, outcomes, allocation count / largest / total)"),
+                  "process under a watchdog with a counting global allocator; type-length fields of 2^16 / 2^18 / 2^20 bytes; record = (|x|, outcomes, allocation count / largest / total)"),
                 mc={"quick": ["grammar"], "thorough": ["grammar", "tlf_long"]},
                 steps=[{"cmd": "c06", "judge": "J_C06", "cfg": "JudgeP.cfg"}]),
     "C09": dict(P("the same corruption families as C04; both real parsers on every input; records de-duplicated by (allocating result, event list)"),
                 mc={"quick": ["grammar"], "thorough": ["grammar"]},
                 steps=[{"cmd": "c09", "judge": "J_C09", "cfg": "JudgeP.cfg"}]),
-    "C10": dict({"rule": "0-3 SML files (generated with every encoding choice, or real meter payloads) framed by the harness and separated by random noise (incl. noise ending in 0x1b runs or a partial start "
+    "C10": dict({"rule": "0-3 SML files (generated with every encoding choice, or real meter payloads; every third file with octet strings full of zeros / 1b1b1b1b / start and end look-alikes; every fourth input ending in a cut-off transmission) framed by the harness and separated by random noise (incl. noise ending in 0x1b runs or a partial start "
                          "sequence; optionally a near-frame - pad 4, pad without zeros, misaligned, wrong checksum, invalid escape - and more noise behind it), read through SmlReader over slice / iterator / io::Read with the default 8 KiB, ArrayBuf<N> and Vec buffers, with per-call choices of read vs next and of "
                          "DecodedBytes / File / Parser; each record also carries the hand composition decode_streaming + parse / Parser::new",
                  "assumptions": PARSER_ASSUME + TRANSPORT_ASSUME[:2]},
